@@ -120,6 +120,11 @@ func (ex *Exec) concIntrinsic(fn *ssa.Function, args []Value) (Value, bool) {
 			ex.wait(func() bool { return ex.clock > at }, "time.Sleep")
 			return nil, true
 		}
+		if c := ex.clk(); !c.symbolic {
+			if d, ok := args[0].(*Term); ok {
+				c.now = ex.ts.Bin(OpAdd, c.now, d) // sleeping takes time on the frozen clock
+			}
+		}
 		ex.yield()
 		return nil, true
 	}
